@@ -134,7 +134,8 @@ Definition make_affix (prefix : bool) (s : str) (n : Z) : str :=
 
 Definition has_n (s : str) : bool := existsb (fun c => c =? 78) s.
 
-(** _lookup_with_n: N -> A, look up, then re-align that adapter against the affix *)
+(** _lookup_with_n: N -> A, look up, then re-align that adapter against the affix; a re-alignment that covers
+    only part of the affix is a miss *)
 Definition lookup_with_n (ads : list iad) (affix : str) : option (nat * Z * Z) :=
   match index_lookup ads (map (fun c => if c =? 78 then 65 else c) affix) with
   | None => None
@@ -143,7 +144,9 @@ Definition lookup_with_n (ads : list iad) (affix : str) : option (nat * Z * Z) :
       | None => None
       | Some a => match match_to (thr_of (ia_thr a)) (ia_ad a) affix with
                   | None => None
-                  | Some m => Some (r, merrors m, mscore m)
+                  | Some m =>
+                      (* after the repair of F8c: the re-done alignment must cover the whole affix *)
+                      if rstop m - rstart m =? zlen affix then Some (r, merrors m, mscore m) else None
                   end
       end
   end.
